@@ -1,12 +1,14 @@
 #!/bin/sh
-# collect_mut.sh C13 : move /tmp/mut_out/C13/{1,2,3} to /verif/seeded/C13-{1,2,3} and drop the worktree
-p=$1; l=$(echo $p | tr 'A-Z' 'a-z')
+# collect_mut.sh C13 [offset]: move /tmp/mut_out/C13/{1,2,3} to /verif/seeded/C13-{1+offset,...} and drop the worktree.
+# ONLY call after the tester agent has reported completion.
+p=$1; off=${2:-0}; l=$(echo $p | tr 'A-Z' 'a-z')
 for i in 1 2 3 4 5; do
   [ -f /tmp/mut_out/$p/$i/patch.diff ] || continue
-  mkdir -p /verif/seeded/$p-$i
-  cp /tmp/mut_out/$p/$i/patch.diff /tmp/mut_out/$p/$i/meta.json /verif/seeded/$p-$i/
-  cp /tmp/mut_out/$p/$i/demo* /verif/seeded/$p-$i/ 2>/dev/null
+  n=$((i+off))
+  mkdir -p /verif/seeded/$p-$n
+  cp /tmp/mut_out/$p/$i/patch.diff /tmp/mut_out/$p/$i/meta.json /verif/seeded/$p-$n/
+  cp /tmp/mut_out/$p/$i/demo* /verif/seeded/$p-$n/ 2>/dev/null
 done
 git -C /repo worktree remove --force /tmp/mut_$l 2>/dev/null
 rm -rf /tmp/mut_out/$p /tmp/mut_$l
-ls -d /verif/seeded/$p-*
+ls -d /verif/seeded/$p-* | tr '\n' ' '
